@@ -265,6 +265,14 @@ def compute_impl(case, verbose=False, neighbours_obj=None, arr=None, fail=None):
         with warnings.catch_warnings():
             warnings.simplefilter('ignore')
             Dendrogram.compute(other, **kw0)
+    if case.get('wcs') is not None:
+        # a linear world coordinate system handed to compute (wcs=); case['wcs'] shifts its reference value
+        from astropy.wcs import WCS
+        w_ = WCS(naxis=len(case['shape']))
+        w_.wcs.crval = [10.0 + case['wcs']] * len(case['shape'])
+        w_.wcs.cdelt = [0.5] * len(case['shape'])
+        w_.wcs.crpix = [1.0] * len(case['shape'])
+        kw['wcs'] = w_
     if fail is not None:
         if fail[0] == 'crit':
             kw['is_independent'] = list(fs) + [raiser(fail[1])]
